@@ -13,6 +13,6 @@ CONFIG = dict(
           "The harness keeps the slices returned by earlier queries (the last four and every fifth one, with a copy of what they showed) and "
           "re-reads their first len() elements after every later query, registration and epoch switch: a returned list must not change."),
     assumptions=["every registered root event has a distinct ID (real callers register an event once)"],
-    level_more='Frames with up to 130+ roots registered in a row and root caches of 101, 250 and 1000 entries are included.',
+    level_more='Frames with up to 130+ roots registered in a row and root caches of 101, 250 and 1000 entries are included. Slices returned by earlier GetFrameRoots calls are kept and re-read after later operations.',
     units=[dict(test="TestC33Roots", quick=5000, thorough=320000, shards=16)],
 )
